@@ -1,5 +1,5 @@
 """C19 - narrow-phase queries terminate with finite results (judge: DistanceJudge.tla, kind "term")."""
-import math, random
+import json, math, os, random
 import numpy as np
 from .. import env, trace, narrow as NW, shapes as S
 from ..result import Result, chash
@@ -74,6 +74,12 @@ NEEDLES = [   # aspect ratio 1e4 at unit 0.01: sizes 0.01 .. 100
 
 
 def one(rid, fname, call, proxy, ca, cb, smooth):
+    if _MARK:
+        try:
+            with open(_MARK, "w") as fh:     # which call is in flight: read by the parent process when this process stops answering
+                fh.write(json.dumps({"rid": rid, "fn": fname, "A": type(ca).__name__, "B": type(cb).__name__ if cb is not None else "same object"}))
+        except OSError:
+            pass
     rec = {"id": rid, "kind": "term", "fn": fname, "exc": "none", "finite": True, "supportCalls": 0, "smooth": bool(smooth), "simplexRows": 4}
     NW.install_observers()
     NW._OBS["rows"] = 4
@@ -97,6 +103,54 @@ def one(rid, fname, call, proxy, ca, cb, smooth):
     if fname == "epa":
         rec["simplexRows"] = int(NW._OBS["rows"])        # valid rows of the GJK simplex handed to EPA (observed)
     return rec
+
+
+_MARK = None
+
+
+def gen_isolated(tier, seed, res):
+    """run gen() in a child process: the wall-clock watchdog inside gen() is a signal handler and cannot interrupt compiled (nopython)
+    code, so a loop that never ends there would hang the check itself (seed C19-10).  The child names the call in flight in a marker
+    file; when the marker does not change for `stale` seconds the parent kills the child and reports that call as NoHang."""
+    import subprocess, sys, tempfile, time
+    from ..env import WORK
+    os.makedirs(WORK, exist_ok=True)
+    out = os.path.join(WORK, f"c19_gen_{os.getpid()}.json")
+    mark = out + ".mark"
+    for f in (out, mark):
+        if os.path.exists(f):
+            os.remove(f)
+    p = subprocess.Popen([sys.executable, "-m", "harness.props.c19", "--gen", tier, str(seed), out, mark],
+                         cwd=os.path.dirname(os.path.dirname(os.path.dirname(os.path.abspath(__file__)))))
+    stale, t_last, last = 240.0, time.time(), None
+    hung = None
+    while p.poll() is None:
+        time.sleep(1.0)
+        try:
+            cur = open(mark).read()
+        except OSError:
+            cur = None
+        if cur != last:
+            last, t_last = cur, time.time()
+        # before the first call (imports, compilation on a fresh cache) the allowance is generous
+        if time.time() - t_last > (stale if cur else 1500.0):
+            p.kill()
+            p.wait()
+            hung = cur or "(before the first call)"
+            break
+    if hung is not None:
+        res.violation(f"NoHang:compiled:{chash(hung)}", "NoHang",
+                      f"the call {hung} did not return within {stale:.0f} s and the in-process watchdog (a signal handler) could not interrupt it: "
+                      "a loop in compiled code does not terminate", {"in_flight": hung, "seed": seed})
+        return [], {}
+    if p.returncode != 0 or not os.path.exists(out):
+        res.machinery(f"the C19 driver process ended with code {p.returncode} without results")
+        return [], {}
+    d = json.load(open(out))
+    os.remove(out)
+    if os.path.exists(mark):
+        os.remove(mark)
+    return d["recs"], d["meta"]
 
 
 def gen(tier, seed):
@@ -188,7 +242,9 @@ def run(tier, seed):
                 res.coverage[k] = res.coverage.get(k, 0) + v
             elif k not in res.coverage or not res.coverage[k]:
                 res.coverage[k] = v
-    recs, meta = gen(tier, seed)
+    recs, meta = gen_isolated(tier, seed, res)
+    if not recs:
+        return res
     byid = {r["id"]: r for r in recs}
     rejects = trace.judge(recs, "narrow", "NarrowTrace", "NarrowTrace.cfg", "c19", res)
     for rid, clauses in sorted(rejects.items(), key=lambda kv: int(kv[0][1:])):
@@ -219,3 +275,13 @@ def replay(path):
     v = json.load(open(path))["replay"]
     print(json.dumps(v["meta"]))
     return 1
+
+
+if __name__ == "__main__":
+    import sys
+    if len(sys.argv) == 6 and sys.argv[1] == "--gen":
+        env.setup()
+        _MARK = sys.argv[5]
+        recs, meta = gen(sys.argv[2], int(sys.argv[3]))
+        with open(sys.argv[4], "w") as fh:
+            json.dump({"recs": recs, "meta": meta}, fh, default=lambda o: o.tolist() if hasattr(o, "tolist") else str(o))
